@@ -35,6 +35,10 @@ class PathCap(BaseException):
     pass
 
 
+class TwinDone(BaseException):
+    """a must-fail twin has produced its failing obligation: stop"""
+
+
 CUR = None          # the Path being executed (always refer to it as core.CUR)
 RUN = None          # the Run (one harness execution) collecting obligations
 
@@ -189,7 +193,8 @@ def explore(fn, on_path=None):
                 if isinstance(e, (TypeError, AttributeError)):
                     from . import proxies
                     msg = str(e)
-                    if any(("'%s'" % n) in msg for n in proxies.proxy_class_names()):
+                    import re as _re
+                    if any(_re.search(r'\b%s\b' % _re.escape(n), msg) for n in proxies.proxy_class_names()):
                         raise EngineEscape('%s involving a proxy: %s' % (type(e).__name__, msg))
                 out = ('exc', e)
         finally:
@@ -219,7 +224,8 @@ def _model_dict(m):
     d = {}
     for k in m.decls():
         try:
-            d[k.name()] = str(m[k])
+            v = str(m[k])
+            d[k.name()] = v if len(v) <= 240 else v[:240] + ' ...'
         except Exception:
             pass
     return d
@@ -242,6 +248,20 @@ def _cli_check(smt2, timeout_s):
         return 'unknown', None
     finally:
         os.unlink(fn)
+
+
+def _has_quant(e):
+    seen = set()
+    todo = [e]
+    while todo:
+        x = todo.pop()
+        if x.get_id() in seen:
+            continue
+        seen.add(x.get_id())
+        if z3.is_quantifier(x):
+            return True
+        todo.extend(x.children())
+    return False
 
 
 def prove(label, claim, kind='post', clause=None, path=None):
@@ -280,7 +300,13 @@ def prove(label, claim, kind='post', clause=None, path=None):
         r = z3.unknown
         ob.verdict = None
         cli_sat = None
-        for stage, budget in (('quick', min(2.0, RUN.timeout_s)), ('cli', RUN.timeout_s), ('full', RUN.timeout_s)):
+        quant = bool(p.axioms) or _has_quant(claim)
+        stages = (('quick', min(2.0, RUN.timeout_s)), ('cli', RUN.timeout_s), ('full', RUN.timeout_s))
+        if quant:
+            # quantified facts: E-matching alone refutes fast; MBQI afterwards (needed for `sat` and models)
+            stages = (('ematch', min(3.0, RUN.timeout_s)),) + stages
+        for stage, budget in stages:
+            s.set('smt.mbqi', stage != 'ematch')
             if stage == 'cli':
                 r2, be_ = _cli_check('(set-logic ALL)\n' + s.to_smt2(), max(1, int(budget)))
                 if r2 == 'unsat':
@@ -295,9 +321,21 @@ def prove(label, claim, kind='post', clause=None, path=None):
             if r == z3.unsat:
                 ob.verdict, ob.backend = 'discharged', 'z3-' + z3.get_version_string()
                 break
+            if r == z3.sat and stage == 'ematch':
+                continue        # without MBQI `sat` is not trusted for quantified problems
             if r == z3.sat:
                 ob.verdict, ob.backend = 'failed', 'z3-' + z3.get_version_string()
                 zm = s.model()
+                # prefer a small counterexample for the replay (hints only narrow the search; the verdict stands)
+                for hint in getattr(RUN, 'small_model_hints', ()):
+                    s.push()
+                    s.add(hint)
+                    s.set('timeout', 3000)
+                    if s.check() == z3.sat:
+                        zm = s.model()
+                        s.pop()
+                        break
+                    s.pop()
                 ob.model = _model_dict(zm)
                 if RUN.concretise:
                     try:
@@ -311,11 +349,17 @@ def prove(label, claim, kind='post', clause=None, path=None):
         elif ob.verdict is None:
             ob.verdict, ob.backend = 'undecided', None
             ob.note = 'solver: ' + s.reason_unknown()
+            if os.environ.get('PYSYM_DUMP'):
+                with open(os.path.join(os.environ['PYSYM_DUMP'], 'undecided_%d.smt2' % len(RUN.obligations)), 'w') as f:
+                    f.write('; %s\n(set-logic ALL)\n%s' % (ob.name, s.to_smt2()))
         s.pop()
+        s.set('smt.mbqi', True)
         s.set('timeout', RUN.fork_timeout_ms)
     ob.time = round(time.time() - t0, 4)
     RUN.solver_time += ob.time
     RUN.obligations.append(ob)
+    if ob.verdict == 'failed' and getattr(RUN, 'stop_on_failure', False):
+        raise TwinDone()
     return ob.verdict == 'discharged'
 
 
